@@ -436,7 +436,7 @@ func litOracle(c LitCase, o *h.Obs) *h.Fail {
 		o.NonTrivial = c.I != 0 && c.I != 1
 		switch {
 		case c.I == math.MinInt64:
-			o.Class("lit:int:MinInt64")
+			o.Class("lit:int:MinInt64:" + form)
 		case c.I == math.MaxInt64:
 			o.Class("lit:int:MaxInt64")
 		}
